@@ -5,6 +5,9 @@ import NibabelModel.Lemmas.C16_Tck
 import NibabelModel.Lemmas.C16_Names
 import NibabelModel.Lemmas.C16_Trk
 import NibabelModel.Lemmas.C16_Table
+import NibabelModel.Lemmas.C16_Items
+import NibabelModel.Lemmas.C16_File
+import NibabelModel.Lemmas.C16_Lazy
 import NibabelModel.Lemmas.C16_Aff
 /-! Props/C16 — property theorems for C16 (tractograms round-trip through TRK and TCK in RAS+ mm).
     Statements about the TCK header arithmetic are about the definitions REGENERATED from the source
@@ -73,6 +76,54 @@ theorem tck_roundtrip (c : Nat) (hc : 0 < c) (off : Nat) (sls : List (List Tripl
     simp [tckParseWhole, hs, this]
 
 example : ∀ s ∈ [[((1 : Nat), (2 : Nat), (3 : Nat))], [(0x7FC00000, 5, 6)]], ∀ t ∈ s, isDelim t = false := by decide
+
+/-- **TCK round trip at file level**, for every header text `out` (any bytes, any length — in
+    particular every length at which the offset gains a digit), every buffer size and every
+    tractogram with 32-bit words and no all-NaN point: in the bytes `save` writes
+    (`out ++ "\nfile: . N\nEND\n" ++ little-endian triples`)
+    * the digits after `file: . ` parse back (`int`) to the regenerated `Gen.tckHdrOffset`,
+    * the header occupies exactly that many bytes, so the reader, seeking to the announced
+      offset, starts exactly at the first data byte (it finds whole triples, no ragged tail), and
+    * it yields exactly the non-empty streamlines that were saved, in order, bit for bit, and
+      ends without error. -/
+theorem tck_file_roundtrip (out : List Nat) (c : Nat) (hc : 0 < c) (sls : List (List Triple))
+    (h32 : ∀ s ∈ sls, ∀ t ∈ s, Is32 t) (hnan : ∀ s ∈ sls, ∀ t ∈ s, isDelim t = false) :
+    tckAnnounced out.length (tckWriteFile out sls) = some (Gen.tckHdrOffset out.length) ∧
+    (tckWriteFile out sls).drop (Gen.tckHdrOffset out.length) = encTriples (tckData sls) ∧
+    (tckReadFile c (Gen.tckHdrOffset out.length) (tckWriteFile out sls)).items.map (·.1) =
+      sls.filter (fun s => !s.isEmpty) ∧
+    (tckReadFile c (Gen.tckHdrOffset out.length) (tckWriteFile out sls)).err = none := by
+  rw [Gen.tckHdrOffset_eq_model]
+  have hfix := tckHdrOffset_fix out.length
+  have hhdr : (out ++ tckFilePrefix ++ decRepr (tckHdrOffset out.length) ++ tckFileSuffix).length =
+      tckHdrOffset out.length := by
+    simp only [List.length_append, decRepr_length]
+    omega
+  have hdrop : (tckWriteFile out sls).drop (tckHdrOffset out.length) = encTriples (tckData sls) := by
+    unfold tckWriteFile
+    exact drop_append_len _ _ _ hhdr
+  refine ⟨?_, hdrop, ?_⟩
+  · -- the announced offset
+    unfold tckAnnounced tckWriteFile
+    have : (out ++ tckFilePrefix ++ decRepr (tckHdrOffset out.length) ++ tckFileSuffix ++ encTriples (tckData sls)).drop
+        (out.length + tckFilePrefix.length) =
+        decRepr (tckHdrOffset out.length) ++ 10 :: ([69, 78, 68, 10] ++ encTriples (tckData sls)) := by
+      have h1 : (out ++ tckFilePrefix).length = out.length + tckFilePrefix.length := by simp
+      have : out ++ tckFilePrefix ++ decRepr (tckHdrOffset out.length) ++ tckFileSuffix ++ encTriples (tckData sls) =
+          (out ++ tckFilePrefix) ++ (decRepr (tckHdrOffset out.length) ++ 10 :: ([69, 78, 68, 10] ++ encTriples (tckData sls))) := by
+        simp [tckFileSuffix]
+      rw [this, drop_append_len _ _ _ h1]
+    rw [this, takeWhile_append_stop isDigit _ 10 _ (decRepr_all_digit _) (by decide), parseDec_decRepr]
+  · -- reading from there
+    unfold tckReadFile
+    rw [hdrop, decTriples_encTriples _ (tckData_is32 sls h32)]
+    exact tck_roundtrip c hc _ sls hnan
+
+example : (∀ s ∈ [[((1 : Nat), (2 : Nat), (3 : Nat))]], ∀ t ∈ s, Is32 t) := by
+  intro s hs t ht
+  simp at hs; subst hs
+  simp at ht; subst ht
+  exact ⟨by decide, by decide, by decide⟩
 
 /-! ### TRK names -/
 
@@ -275,21 +326,96 @@ theorem trk_columns_roundtrip (dps : List (Name × List Nat)) :
   have := slices_recover dps []
   simpa using this
 
-/-
-  trk_roundtrip — full statement (NOT proved as a single theorem; proved in three parts above:
-  `trk_records_roundtrip` (counts, order, rows and properties of every record),
-  `trk_name_table_roundtrip` (names and column ranges through the header name tables),
-  `trk_columns_roundtrip` (cutting the concatenated values at those ranges)):
+/-- a schema the TRK name table can carry: every (name, number of columns) pair is `ColOk` and the
+    names are distinct -/
+def SchemaOk (cols : List (Name × Nat)) : Prop := (∀ c ∈ cols, ColOk c) ∧ (cols.map (·.1)).Nodup
 
-    ∀ items, (every item: ≥ 1 point, the same sorted distinct `ColOk` keys with the same numbers of
-      columns as the first item, ≤ 10 keys each, one row per point) →
-      ∃ h words, trkSaveItems items = .ok (h, words) ∧ trkLoadItems h words = .ok items
+/-- **TRK round trip at the level of the tractogram.**  For every list of items (streamlines with
+    their points, per-point data under names, per-streamline data under names; dicts in sorted key
+    order) that the writer accepts — the per-point names `pcols` and per-streamline names `scols`
+    with their numbers of columns fit the header name tables (`nameTable … = ok`: at most ten
+    names of at most 20 bytes incl. the encoded count) and are `SchemaOk`, every item has at least
+    one point and one row of the right width per point under every name (`Item.WF`) — `save`
+    succeeds, the header announces the number of streamlines, and `load` of what was written
+    returns exactly the same items: the same number of streamlines in the same order, the same
+    points, and the same data_per_point / data_per_streamline values under the same names.
+    (Coordinates here are the words handed to the record loop; the affine pair around it is
+    `trackvis_affine_invertible`.  What the real code does outside the hypotheses: a tractogram
+    whose only streamlines are empty raises ZeroDivisionError; the name '' with one column is read
+    back under the default name; names containing NUL are refused by `load`.) -/
+theorem trk_roundtrip (pcols scols : List (Name × Nat)) (items : List Item) (sf pf : List (List Nat))
+    (hp : SchemaOk pcols) (hs : SchemaOk scols)
+    (hsf : nameTable pcols = .ok sf) (hpf : nameTable scols = .ok pf)
+    (hw : ∀ it ∈ items, it.WF pcols scols) :
+    ∃ h words, trkSaveItems items = .ok (h, words) ∧ h.nStreams = items.length ∧
+      trkLoadItems h words = .ok items := by
+  cases items with
+  | nil =>
+    refine ⟨⟨0, 0, 0, zeroFields, zeroFields⟩, [], rfl, rfl, ?_⟩
+    have hr := trk_records_roundtrip 0 0 0 [] (by simp) 0 (Or.inl rfl)
+    simp only [trkDataWords, List.map_nil, List.flatten_nil] at hr
+    have hi : (trkRead 0 0 0 0 []).items = [] := List.map_eq_nil_iff.mp hr.1
+    simp [trkLoadItems, nameSlices, hr.2, hi]
+  | cons first rest =>
+    have hfirst := hw first (by simp)
+    obtain ⟨hn, _, hm, hsd⟩ := hfirst
+    let recs := (first :: rest).map itemRecOf
+    have hWF : ∀ r ∈ recs, r.WF (colsTotal pcols) (colsTotal scols) := by
+      intro r hr
+      obtain ⟨it, hit, rfl⟩ := List.mem_map.mp hr
+      exact itemRecOf_WF (hw it hit)
+    have hmapM : (first :: rest).mapM (itemRec (pcols.map (·.1)) (scols.map (·.1))) = .ok recs :=
+      mapM_ok_of_forall _ itemRecOf _ (fun it hit => itemRec_eq (hw it hit) hp.2 hs.2)
+    have hlen : recs.length = (first :: rest).length := by simp [recs]
+    have hpts : 0 < (recs.map (·.rows.length)).sum := by
+      simp only [recs, List.map_cons, List.sum_cons, itemRecOf_rows_length]
+      omega
+    have hcounts := trkHeaderCounts_eq (colsTotal pcols) (colsTotal scols) recs hWF hpts
+      (by rw [hlen]; simp) sf pf
+    rw [hlen] at hcounts
+    refine ⟨⟨(first :: rest).length, colsTotal pcols, colsTotal scols, sf, pf⟩, trkDataWords recs, ?_, rfl, ?_⟩
+    · -- save
+      have hnames_p : first.dpp.map (·.1) = pcols.map (·.1) := hm.names
+      have hnames_s : first.dps.map (·.1) = scols.map (·.1) := by rw [← hsd]; simp
+      simp only [trkSaveItems, hsd, hpf, hm.head hn, hsf, hnames_p, hnames_s, hmapM, hcounts]
+    · -- load
+      have hr := trk_records_roundtrip (colsTotal pcols) (colsTotal scols) 0 recs hWF (first :: rest).length
+        (Or.inr hlen.symm)
+      simp only [trkLoadItems, trk_name_table_roundtrip pcols scalarsName sf hp.1 hp.2 hsf,
+        trk_name_table_roundtrip scols propertiesName pf hs.1 hs.2 hpf, hr.2]
+      congr 1
+      have : (trkRead (colsTotal pcols) (colsTotal scols) (first :: rest).length 0 (trkDataWords recs)).items.map
+          (fun x => recItem (cumSlices pcols 0) (cumSlices scols 0) x.1) =
+          ((trkRead (colsTotal pcols) (colsTotal scols) (first :: rest).length 0 (trkDataWords recs)).items.map (·.1)).map
+            (recItem (cumSlices pcols 0) (cumSlices scols 0)) := by
+        rw [List.map_map]; rfl
+      rw [this, hr.1]
+      simp only [recs, List.map_map]
+      have : ∀ it ∈ (first :: rest), (recItem (cumSlices pcols 0) (cumSlices scols 0) ∘ itemRecOf) it = id it :=
+        fun it hit => recItem_itemRecOf (hw it hit)
+      rw [List.map_congr_left this, List.map_id]
 
-  Missing: the glue lemma that `itemRows`/`itemProps` of such items are `TrkRec.WF` records whose
-  `recItem` (with the slices of `trk_name_table_roundtrip`) is the item again, and the count
-  arithmetic of `trkSaveItems` (`nbScalars / nbPoints`, `nbProps / nbStreamlines`).  The composed
-  pipeline is compared with the real code on every `trk` case of the correspondence stream.
--/
+/-- non-vacuity: one streamline of two points with a 2-column per-point field 'fa' and a
+    1-value per-streamline field 'm' -/
+example : (⟨[(1, 2, 3), (4, 5, 6)], [([102, 97], [[7, 8], [9, 10]])], [([109], [11])]⟩ : Item).WF
+    [([102, 97], 2)] [([109], 1)] := by
+  refine ⟨by decide, by decide, ?_, rfl⟩
+  simp [DppMatches]
+
+example : SchemaOk [([102, 97], 2)] ∧ ∃ sf, nameTable [([102, 97], 2)] = .ok sf := by
+  refine ⟨⟨?_, by simp⟩, ?_⟩
+  · intro c hc
+    simp at hc; subst hc
+    refine ⟨?_, by decide, Or.inl (by decide)⟩
+    intro x hx; simp at hx
+    rcases hx with h | h <;> subst h <;> decide
+  · have he : encodeName 2 [102, 97] = .ok ([102, 97, 0, 50] ++ List.replicate 16 0) := by
+      simp [encodeName, decRepr]
+    refine ⟨([102, 97, 0, 50] ++ List.replicate 16 0) :: List.replicate 9 (List.replicate 20 0), ?_⟩
+    unfold nameTable
+    rw [if_neg (by decide)]
+    simp only [List.mapM_cons, List.mapM_nil, he, bind, Except.bind, pure, Except.pure]
+    rfl
 
 /-! ### The trackvis ⇄ RAS+mm affine -/
 
@@ -363,5 +489,88 @@ theorem lazyItems_orig_counterexample :
     lazyItemsOrig shiftHalf [⟨[(0x3F000000, 0x3F000000, 0x3F000000)], [], []⟩] ≠
       lazyItems shiftHalf [⟨[(0x3F000000, 0x3F000000, 0x3F000000)], [], []⟩] := by
   decide +kernel
+
+/-! ### Lazy and eager loading agree -/
+
+/-- TCK: the eager tractogram (the reader consumed into an `ArraySequence`: one concatenated buffer
+    cut again by the stored lengths) has exactly the streamlines the lazy generator yields, and
+    both fail on the same files with the same error. -/
+theorem lazy_eq_eager_tck (run : GenRun (List Triple)) : tckEager run = tckLazy run := by
+  unfold tckEager tckLazy
+  cases run.err with
+  | some e => rfl
+  | none => simp [ofLists_toLists]
+
+/-- TRK: for every non-empty sequence of records the reader yields, every pair of name-table
+    slice lists with distinct names and every affine, the eager tractogram (points, scalars and
+    properties collected into concatenated buffers; column slices and the affine applied to the
+    whole buffer; streamlines cut out by length) equals what the lazy tractogram delivers through
+    `.streamlines` (affine per item), `.data_per_point[k]` and `.data_per_streamline[k]` (one
+    generator per key of the first item, looking the key up in every item): same streamlines,
+    same names in the same order, same values.  (With no records the eager dicts keep the header's
+    names with empty sequences while the lazy ones have no keys — `save` never writes such a file.) -/
+theorem lazy_eq_eager_trk (A : Aff) (dppS dpsS : List (Name × Nat × Nat)) (recs : List TrkRec)
+    (hne : recs ≠ []) (hp : (dppS.map (·.1)).Nodup) (hs : (dpsS.map (·.1)).Nodup) :
+    trkEager A dppS dpsS recs = trkLazy A dppS dpsS recs := by
+  cases recs with
+  | nil => exact absurd rfl hne
+  | cons r0 rest =>
+    unfold trkEager trkLazy
+    simp only
+    -- streamlines
+    have hsl : ((ArrSeq.ofLists ((r0 :: rest).map (fun r => r.rows.map rowTriple))).mapRowsM (applyAffBits A)).map
+        ArrSeq.toLists =
+        ((r0 :: rest).map (recItem dppS dpsS)).mapM (fun (it : Item) => it.pts.mapM (applyAffBits A)) := by
+      rw [ofLists_mapRowsM_toLists, List.mapM_map, List.mapM_map]
+      rfl
+    -- per-point data
+    have hD : dppS.map (fun s => (s.1, ((ArrSeq.ofLists ((r0 :: rest).map (fun r => r.rows.map (fun row => row.drop 3)))).mapRows
+          (fun row => pySlice row s.2.1 s.2.2)).toLists)) =
+        ((recItem dppS dpsS r0).dpp.map (fun d => d.1)).map (fun k => (k, ((r0 :: rest).map (recItem dppS dpsS)).map
+          (fun (it : Item) => (it.dpp.lookup k).getD []))) := by
+      simp only [recItem, List.map_map]
+      apply List.map_congr_left
+      intro s hsmem
+      simp only [Function.comp]
+      congr 1
+      rw [ofLists_mapRows_toLists, List.map_map]
+      apply List.map_congr_left
+      intro r _
+      simp only [Function.comp]
+      have hrec : (recItem dppS dpsS r).dpp =
+          dppS.map (fun s => (s.1, r.rows.map (fun row => pySlice (row.drop 3) s.2.1 s.2.2))) := rfl
+      rw [hrec, lookup_map_of_mem (fun s => r.rows.map (fun row => pySlice (row.drop 3) s.2.1 s.2.2)) dppS hp s hsmem]
+      simp [List.map_map, Function.comp_def]
+    -- per-streamline data
+    have hS : dpsS.map (fun s => (s.1, ((r0 :: rest).map (·.props)).map (fun pr => pySlice pr s.2.1 s.2.2))) =
+        ((recItem dppS dpsS r0).dps.map (fun d => d.1)).map (fun k => (k, ((r0 :: rest).map (recItem dppS dpsS)).map
+          (fun (it : Item) => (it.dps.lookup k).getD []))) := by
+      simp only [recItem, List.map_map]
+      apply List.map_congr_left
+      intro s hsmem
+      simp only [Function.comp]
+      congr 1
+      apply List.map_congr_left
+      intro r _
+      simp only [Function.comp]
+      have hrec : (recItem dppS dpsS r).dps = dpsS.map (fun s => (s.1, pySlice r.props s.2.1 s.2.2)) := rfl
+      rw [hrec, lookup_map_of_mem (fun s => pySlice r.props s.2.1 s.2.2) dpsS hs s hsmem]
+      rfl
+    rw [← hsl, hD, hS]
+    simp only [List.map_cons, Option.map_map]
+    rfl
+
+/-- … and the slice lists `load` derives from ANY header name tables have distinct names (they are
+    the keys of a Python dict), so lazy ≡ eager holds for every TRK header and every data section
+    from which the reader yields at least one record. -/
+theorem lazy_eq_eager_trk_load (A : Aff) (h : TrkCounts) (words : List Nat) (dppS dpsS : List (Name × Nat × Nat))
+    (h1 : nameSlices h.ns h.scalarFields scalarsName = .ok dppS)
+    (h2 : nameSlices h.np h.propFields propertiesName = .ok dpsS)
+    (hne : (trkRead h.ns h.np h.nStreams 0 words).items.map (·.1) ≠ []) :
+    trkEager A dppS dpsS ((trkRead h.ns h.np h.nStreams 0 words).items.map (·.1)) =
+      trkLazy A dppS dpsS ((trkRead h.ns h.np h.nStreams 0 words).items.map (·.1)) :=
+  lazy_eq_eager_trk A dppS dpsS _ hne (nameSlices_nodup _ _ _ _ h1) (nameSlices_nodup _ _ _ _ h2)
+
+example : ([([102, 97], 0, 2), ([109], 2, 3)] : List (Name × Nat × Nat)).map (·.1) |>.Nodup := by decide
 
 end Nb.C16
